@@ -21,6 +21,8 @@ func main() {
 		checkCmd(os.Args[2:])
 	case "replay":
 		replayCmd(os.Args[2:])
+	case "sweep":
+		sweepCmd(os.Args[2:])
 	case "selftest":
 		selftestCmd(os.Args[2:])
 	default:
